@@ -1427,6 +1427,14 @@ func (w *envelopingWriter) writeBytes(data []byte) (int, error) {
 func (w *envelopingWriter) handleEnvelopeWritten() error {
 	w.writingEnvelope = false
 	verifPoint("ew:envelope")
+	if w.rw.op.serverEnveloper == nil {
+		// The server protocol has no envelopes: its single message was framed using
+		// the declared content-length, and the handler has now written more than that.
+		err := fmt.Errorf("handler wrote more than the declared content-length of %d bytes", w.rw.contentLen)
+		w.rw.reportError(err)
+		w.err = err
+		return err
+	}
 	env, err := w.rw.op.serverEnveloper.decodeEnvelope(w.env)
 	if err != nil {
 		err = malformedRequestError(err)
@@ -1557,7 +1565,7 @@ func (w *envelopingWriter) maybeInit() {
 		return
 	}
 	w.current = w.w
-	w.remainingBytes = envelopeLen
+	w.remainingBytes = w.rw.contentLen
 }
 
 func (w *envelopingWriter) handleTrailer() error {
